@@ -117,6 +117,19 @@ def run(args):
         R.evaluations += 1
         if not np.allclose(x, x2, rtol=1e-10, atol=1e-10):
             R.spec_fail(dict(kind="creation-order-changes-result"), f"creating the synapses in order {perm.tolist()} changes the result by {np.max(np.abs(x - x2)):.3g}", inp, x2.tolist())
+        # ---------------- parameters assigned BETWEEN the connect calls (connect; set; connect; set ...) instead of after all of them
+        net3, _ = point_net(rng, ncells, geom=g)
+        for i, ((a, b, ty), pr) in enumerate(zip(edges, params)):
+            connect(net3.select(nodes=[a]), net3.select(nodes=[b]), SYNS[ty]())
+            for kk, val in pr.items():
+                net3.select(edges=[i]).set(kk, val)
+        R.evaluations += 1
+        lost = [(i, kk) for i, pr in enumerate(params) for kk, val in pr.items() if float(net3.edges.loc[i, kk]) != float(val)]
+        if lost:
+            R.spec_fail(dict(kind="edge-parameter-lost-by-later-connect"), f"values set on edges before a later connect() are gone from .edges: {lost[:4]}", inp, [(i, kk, float(net3.edges.loc[i, kk])) for i, kk in lost[:6]])
+        x3 = one_step(net3, dt, backend)
+        if not np.allclose(x, x3, rtol=1e-10, atol=1e-10):
+            R.spec_fail(dict(kind="interleaved-set-connect-changes-result"), f"setting each synapse's parameters right after its connect() (instead of after all connects) changes the result by {np.max(np.abs(x - x3)):.3g}", inp, x3.tolist())
         # ---------------- locality: perturb a compartment that is neither pre nor post of edge k
         net.delete_recordings()
         k = int(rng.integers(0, ne)); a, b, ty = edges[k]
